@@ -895,6 +895,18 @@ func (r *Replica) buildTx(ctx sdk.Context, t bhTx) ([]byte, error) {
 			LockupPeriods: periodsOf(total, t.N, 2), VestingPeriods: periodsOf(total, maxI64(t.N/4, 0), 1+int(t.V%3)),
 			Merge: strings.Contains(t.S, "merge"), Stake: strings.Contains(t.S, "stake"), ValidatorAddress: valOper(t.V2).String(),
 		}
+		if len(t.X) > 0 {
+			// further denominations: unlocked and vested by a first short period of their own
+			extra, err := coinsFromPairs(t.X)
+			if err != nil {
+				return nil, err
+			}
+			if extra = extra.Sub(sdk.NewCoin(denom, extra.AmountOf(denom))); !extra.IsZero() {
+				first := sdkvesting.Period{Length: 1, Amount: extra}
+				m.LockupPeriods = append(sdkvesting.Periods{first}, m.LockupPeriods...)
+				m.VestingPeriods = append(sdkvesting.Periods{first}, m.VestingPeriods...)
+			}
+		}
 		msgs = []sdk.Msg{m}
 	case "clawback":
 		msgs = []sdk.Msg{vestingtypes.NewMsgClawback(from, toAcc, nil)}
